@@ -14,7 +14,7 @@ def gen_tasks(rng, n_worlds, tier, ops=None, per_world=None, dtypes=None):
     names = sorted(catalogue.OPS) if ops is None else ops
     for wi in range(n_worlds):
         w = catalogue.gen_world(rng, tier)
-        cand = [o for o in names if w["cls"] in catalogue.OPS[o]["classes"]]
+        cand = [o for o in names if w["cls"] in catalogue.OPS[o]["classes"] and (not w.get("loops") or o in catalogue.LOOP_SAFE)]
         chosen = cand if per_world is None else rng.sample(cand, min(per_world, len(cand)))
         for o in chosen:
             args = catalogue.OPS[o]["gen"](rng, w)
